@@ -14,4 +14,33 @@ theorem parseHex_header (n : Nat) (h : n < 16777216) : parseHex (header n) 0 = s
 
 theorem header_length (n : Nat) : (header n).length = 6 := rfl
 
+theorem ofNat_toNat_map (l : List Char) : (l.map Char.toNat).map Char.ofNat = l := by
+  induction l with
+  | nil => rfl
+  | cons c r ih => simp only [List.map_cons, ih, Char.ofNat_toNat]
+
+/-- one message at the front of a stream -/
+theorem readMessage_wireBytes (payload rest : List Nat) (h : payload.length ≤ maxMessageSize) :
+    readMessage (wireBytes payload ++ rest) = some (payload, rest) := by
+  unfold readMessage wireBytes
+  have hl : ((header payload.length).map Char.toNat).length = 6 := by simp [header_length]
+  have h6 : ¬ ((header payload.length).map Char.toNat ++ payload ++ rest).length < 6 := by
+    simp only [List.length_append, hl]; omega
+  rw [if_neg h6, List.append_assoc, List.take_left' hl, List.drop_left' hl, ofNat_toNat_map]
+  unfold unframe
+  have hm : maxMessageSize = 1048576 := rfl
+  simp only [header_length, if_true, parseHex_header payload.length (by omega)]
+  have : payload.length ≤ maxMessageSize ∧ payload.length ≤ (payload ++ rest).length := ⟨h, by simp⟩
+  simp [this]
+
+/-- a whole connection -/
+theorem readMessages_writeAll (ps : List (List Nat)) (h : ∀ p ∈ ps, p.length ≤ maxMessageSize) :
+    readMessages ps.length (writeAll ps) = some ps := by
+  induction ps with
+  | nil => rfl
+  | cons p ps ih =>
+    simp only [List.length_cons, writeAll, readMessages]
+    rw [readMessage_wireBytes p (writeAll ps) (h p (by simp))]
+    simp only [ih (fun q hq => h q (by simp [hq])), Option.map_some]
+
 end SlipVerif.Wire6
